@@ -28,6 +28,7 @@ type Scope_ struct {
 	Kinds       []string `json:"kinds"`        // obligation kinds claimed (empty = all generated)
 	ExtraKinds  []string `json:"extra_kinds"`  // additional kinds to generate (e.g. nil)
 	Lemmas      []string `json:"lemmas"`       // lemma names (regexps)
+	ThoroughFunctions []string `json:"thorough_functions"` // functions verified in the thorough tier only (slow end-to-end posts)
 	ThoroughLemmas []string `json:"thorough_lemmas"` // lemmas verified in the thorough tier only (expensive end-to-end compositions)
 	MustHaveContract []string `json:"must_have_contract"` // functions that must carry a contract with at least one ensures
 	QuickTimeout    [2]int `json:"quick_timeout"`
@@ -204,6 +205,21 @@ func cmdCheck(args []string) {
 	readJSON(filepath.Join(*verif, "unclaimed.json"), &uc)
 
 	e := mustEnv(*repo)
+	if *tier == "thorough" {
+		sc.Functions = append(append([]string{}, sc.Functions...), sc.ThoroughFunctions...)
+	} else if len(sc.ThoroughFunctions) > 0 {
+		skip := map[string]bool{}
+		for _, f := range sc.ThoroughFunctions {
+			skip[f] = true
+		}
+		var mh []string
+		for _, f := range sc.MustHaveContract {
+			if !skip[f] {
+				mh = append(mh, f)
+			}
+		}
+		sc.MustHaveContract = mh
+	}
 	fns, missing := e.scopeFuncs(&sc)
 	tmo := sc.QuickTimeout
 	if *tier == "thorough" {
